@@ -27,17 +27,20 @@ theorem consts_match_model_package_constants :
 /-- `Validate`: the name limit -/
 theorem consts_match_model_validate (n : NBName) :
     validate n =
-    (!(n.name.length > ConstsC10.validate_nameMax) && (n.scope.isEmpty || isValidDomainName n.scope)) := by exact rfl
+    (
+      !(n.name.length > ConstsC10.validate_nameMax) && (n.scope.isEmpty || isValidDomainName n.scope)) := by exact rfl
 
 /-- `FirstLevelEncode`: nibble shift, masks and the letter offset -/
 theorem consts_match_model_encByte (b : UInt8) :
     encByte b =
-    ([((b >>> UInt8.ofNat ConstsC10.encode_hi_shift) &&& UInt8.ofNat ConstsC10.encode_hi_mask) + UInt8.ofNat ConstsC10.encode_hi_add, (b &&& UInt8.ofNat ConstsC10.encode_lo_mask) + UInt8.ofNat ConstsC10.encode_lo_add]) := by exact rfl
+    (
+    [((b >>> UInt8.ofNat ConstsC10.encode_hi_shift) &&& UInt8.ofNat ConstsC10.encode_hi_mask) + UInt8.ofNat ConstsC10.encode_hi_add, (b &&& UInt8.ofNat ConstsC10.encode_lo_mask) + UInt8.ofNat ConstsC10.encode_lo_add]) := by exact rfl
 
 /-- `FirstLevelEncode`: padding length -/
 theorem consts_match_model_pad16 (name : Bytes) :
     pad16 name =
-    (name ++ List.replicate (ConstsC10.encode_padUntil - name.length) space) := by exact rfl
+    (
+    name ++ List.replicate (ConstsC10.encode_padUntil - name.length) space) := by exact rfl
 
 theorem consts_match_model_encode_shape :
     ConstsC10.encode_hi_shape = "(+ (& (>> (index name i) 4) 15) 65)" ∧ ConstsC10.encode_lo_shape = "(+ (& (index name i) 15) 65)"
@@ -58,7 +61,8 @@ theorem consts_match_model_decPairs (hi lo : UInt8) (rest : Bytes) :
 /-- `FirstLevelDecode`: the encoded length -/
 theorem consts_match_model_firstLevelDecode (encoded : Bytes) :
     firstLevelDecode encoded =
-    (if (splitFirstDot encoded).1.length ≠ ConstsC10.decode_encodedLen then .err
+    (
+      if (splitFirstDot encoded).1.length ≠ ConstsC10.decode_encodedLen then .err
       else
         match decPairs (splitFirstDot encoded).1 with
         | .ok d => .ok { name := trimRight d, scope := (splitFirstDot encoded).2.getD [] }
@@ -87,7 +91,8 @@ theorem consts_match_model_appendLabels (l : Bytes) (ls : List Bytes) (buf : Byt
 /-- `appendEncodedName`: the wire-length check and the terminator -/
 theorem consts_match_model_appendEncodedName (buf encoded : Bytes) :
     appendEncodedName buf encoded =
-    (if encoded.length + ConstsC10.append_total_plus > ConstsC10.append_total_max then .err
+    (
+      if encoded.length + ConstsC10.append_total_plus > ConstsC10.append_total_max then .err
       else
         match appendLabels (splitDots encoded) buf with
         | .ok b => .ok (b ++ [UInt8.ofNat ConstsC10.append_terminator_zero])
@@ -97,7 +102,8 @@ theorem consts_match_model_appendEncodedName (buf encoded : Bytes) :
 /-- `readEncodedName`, one turn of the loop: the end byte and the label limit -/
 theorem consts_match_model_readEncodedName (data : Bytes) (offset : Nat) (labels : List Bytes) :
     readEncodedName data offset labels =
-    (if h : data.length ≤ offset then .err
+    (
+      if h : data.length ≤ offset then .err
       else
         if (data[offset]'(by omega)) = UInt8.ofNat ConstsC10.read_end then .ok (joinDots labels, offset + 1)
         else if (data[offset]'(by omega)).toNat > ConstsC10.read_labelMax then .err
@@ -118,7 +124,8 @@ theorem consts_match_model_byte_order :
 /-- one question of `Unmarshal`: fixed size and offsets -/
 theorem consts_match_model_unmarshalQ (data : Bytes) (offset : Nat) :
     unmarshalQ data offset =
-    (match readEncodedName data offset [] with
+    (
+      match readEncodedName data offset [] with
       | .ok (enc, next) =>
         match firstLevelDecode enc with
         | .ok name =>
@@ -135,7 +142,8 @@ theorem consts_match_model_unmarshalQ (data : Bytes) (offset : Nat) :
 /-- one resource record of `unmarshalRRs`: fixed size and offsets -/
 theorem consts_match_model_unmarshalRR (data : Bytes) (offset : Nat) :
     unmarshalRR data offset =
-    (match readEncodedName data offset [] with
+    (
+      match readEncodedName data offset [] with
       | .ok (enc, next) =>
         match firstLevelDecode enc with
         | .ok name =>
@@ -168,7 +176,8 @@ theorem consts_match_model_field_ends :
 /-- `Unmarshal`: minimum length, the six header offsets, where the sections start -/
 theorem consts_match_model_unmarshal (data : Bytes) :
     unmarshal data =
-    (if data.length < ConstsC10.packet_minLen then .err
+    (
+      if data.length < ConstsC10.packet_minLen then .err
       else
         match rd16 data ConstsC10.packet_h0_lo, rd16 data ConstsC10.packet_h1_lo, rd16 data ConstsC10.packet_h2_lo, rd16 data ConstsC10.packet_h3_lo, rd16 data ConstsC10.packet_h4_lo, rd16 data ConstsC10.packet_h5_lo with
         | .ok id, .ok fl, .ok qd, .ok an, .ok ns, .ok ar =>
